@@ -47,7 +47,14 @@ def struct_eq(a, b):
     if isinstance(a, X.ExprMem):
         if a.size != b.size:
             return False
+        sa, sb = isinstance(a.segm, X.Expr), isinstance(b.segm, X.Expr)
+        if sa != sb:
+            return False
+        if sa:
+            return _all([struct_eq(a.arg, b.arg), struct_eq(a.segm, b.segm)])
         return struct_eq(a.arg, b.arg)
+    if isinstance(a, X.ExprAff):
+        return _all([struct_eq(a.dst, b.dst), struct_eq(a.src, b.src)])
     if isinstance(a, X.ExprOp):
         if a.op != b.op or len(a.args) != len(b.args):
             return False
